@@ -286,6 +286,7 @@ fn c05_3a_unlock_hands_over_once() {
 }
 
 //@ obligation: C05.4a
+//@ property: C05 C09
 //@ kind: K3
 //@ complete: yes
 //@ functions: Mutex::lock
@@ -342,6 +343,7 @@ fn c05_4a_at_panic() {
 }
 
 //@ obligation: C05.4b
+//@ property: C05 C09 C11
 //@ kind: K3
 //@ complete: yes
 //@ functions: Mutex::lock
